@@ -300,6 +300,9 @@ class Compiler:
             return_type=ret_type,
         )
         transformer.macros = self.transformer.macros
+        # The body is inlined into the caller and shares its local variables.
+        # Give the temporaries of the sub-routine their own names.
+        transformer.hybrid_tmp_prefix = f"h_tmp_{name}_"
         body = transformer.transform(ast_body)
         return SubRoutine(name, ret_type, params, body)
 
